@@ -243,12 +243,22 @@ pub fn compile_in_world(text: &str) -> Result<Scope, String> {
     }
 }
 
+thread_local! {
+    static LAST_COMPILE: std::cell::RefCell<Counters> = std::cell::RefCell::new(Counters::default());
+}
+
+/// seam counters of the most recent `compile` on this thread
+pub fn last_compile_counters() -> Counters {
+    LAST_COMPILE.with(|c| c.borrow().clone())
+}
+
 /// compile under a throw-away world with the given environment; Err(Ok(msg)) = compile error,
 /// Err(Err(msg)) = the compiler panicked
 pub fn compile(text: &str, env: &EnvCfg) -> Result<Scope, Result<String, String>> {
     world::install(env.clone());
     let r = guarded(|| compile_in_world(text));
-    let _ = world::take();
+    let w = world::take();
+    LAST_COMPILE.with(|c| *c.borrow_mut() = w.c.clone());
     match r {
         Ok(Ok(s)) => Ok(s),
         Ok(Err(e)) => Err(Ok(e)),
